@@ -269,7 +269,7 @@ CHECKS = {
              "upload (Stream.v: streamreader.Read, the reader the server hands to store.Set; composed with the write path: "
              "C10_grpc_abort_never_stored - a stream aborted after any chunks, read with any buffer length, is never stored for any fault plan "
              "and candidate order; C10_grpc_upload_exact - a stored upload holds exactly the chunks in order; C10_grpc_reader_terminates; "
-             "C10_grpc_reads_prefix; C10_grpc_abort_refuted_orig = finding D4; tie: 400/6000 scripted streams x Read-length sequences through the "
+             "C10_grpc_reads_prefix; C10_grpc_abort_refuted_orig = finding D4, C10_grpc_upload_exact_partial_orig = the original reader is the same function on every clean stream; tie: 400/6000 scripted streams x Read-length sequences through the "
              "real streamreader vs the extracted model, property oracle on the answers, 40 re-evaluated by vm_compute). Theorems "
              "(Coq, for every source, every split of it into Read results, every per-root fault plan - ENOSPC at any offset, "
              "all-or-nothing or after a partial write of any length - every reported free space and every candidate order of the "
@@ -308,7 +308,10 @@ CHECKS = {
              "exported class of e whenever e has one and ErrUnknown otherwise (foreign and config errors become ErrUnknown); the "
              "status code alone leads to the same class except for ErrHeaderNotFound (named exception: no status-code case, "
              "travels as Internal, recognised by the detail only); unused status codes read as ErrUnknown; the four isolation "
-             "levels round-trip in both directions, out-of-range numbers become ReadCommitted. Refuted and stated as such: the "
+             "levels round-trip in both directions, out-of-range numbers become ReadCommitted. Streaming: C11_same_content_both_clients - an inline "
+             "SetReader yielding the pieces ws and an external Create/SetReader writing the same pieces (any chunk size, any server buffer "
+             "length, any fault plans) store the same bytes whenever both are stored (models Stream.v, RW.v, Faults.v, tied by C10/C12's runs). "
+             "Refuted and stated as such: the "
              "full errors.Is set is not preserved (a join of two classes keeps the first; a foreign error gains ErrUnknown). "
              "Tie: every case is pushed through the real adapter/errors.Error -> marshalled status -> ClientError and "
              "adapter/iso_level via a verif-tagged accessor and compared line by line with the extracted model (exhaustive: "
